@@ -68,6 +68,12 @@ def run(rng: Rng, tier: str, index: int) -> RunResult:
     for ev in range(n):
         _jose_to_ref(rng.sub("a%d" % ev), index, ev, alg, form, res, tr)
         _ref_to_jose(rng.sub("b%d" % ev), index, ev, alg, form, res, tr)
+    if index % 4 == 0:
+        for v in shared_key_object_problems(rng.sub("shared-key"), res, tr):
+            res.violation(ID, v[0], v[1], {"dir": "shared-key-object", "seed": rng.label})
+    if index % 4 == 1:
+        for v in empty_protected_problems(rng.sub("empty-protected"), res, tr):
+            res.violation(ID, v[0], v[1], {"dir": "empty-protected", "seed": rng.label})
     vrng = rng.sub("vec")
     for _ in range(2):
         t, key = vrng.pick(vectors())
@@ -75,6 +81,73 @@ def run(rng: Rng, tier: str, index: int) -> RunResult:
     res.events = tr.n
     res.digest = tr.digest()
     return res
+
+
+def shared_key_object_problems(rng, res=None, tr=None) -> list:
+    """one key object serves several algorithms of its family, in a drawn order, in both directions: every MAC / signature is the
+    one an independent implementation computes for that algorithm"""
+    from joserfc import jws
+    out = []
+    A = list(rjws.ALL_ALGS)
+    fams = [("oct", ["HS256", "HS384", "HS512"], K.make_oct(rng.sub("k"), rng.pick([32, 64, 100, 128, 200]))),
+            ("RSA", ["RS256", "RS384", "RS512", "PS256", "PS384", "PS512"], K.make_rsa(rng.sub("r"), 2048))]
+    for fam, algs, key in fams:
+        jkey = K.to_jose_fast(key, True)
+        order = [rng.pick(algs) for _ in range(6)]
+        for pos, alg in enumerate(order):
+            if res is not None:
+                res.case("shared-key-object", fam, pos, alg)
+                res.fired("one-key-object-several-algorithms")
+            try:
+                if rng.chance(0.5):
+                    tok = jws.serialize_compact({"alg": alg}, b"shared key object", jkey, algorithms=A)
+                    v = rjws.verify(tok, lambda m, i: key.public() if key.kty != "oct" else key, None)
+                    if not v.ok:
+                        out.append(("shared-key-object:jose->ref:peer-rejects", "after %r on the same key object, the %s token does not verify at the peer: %s" % (
+                            order[:pos], alg, v.reason)))
+                else:
+                    tok = rjws.make_compact(rjws.compact_json({"alg": alg}), b"from the peer", alg, key)
+                    jws.deserialize_compact(tok, jkey, algorithms=A)
+            except Exception as e:
+                out.append(("shared-key-object:%s:failed" % alg, "after %r on the same key object, %s failed: %s: %s" % (order[:pos], alg, type(e).__name__, str(e)[:80])))
+        # a general JSON JWS with two signatures of different algorithms made by one key object
+        try:
+            a1, a2 = algs[0], algs[-1]
+            tok = jws.serialize_json([{"protected": {"alg": a1}}, {"protected": {"alg": a2}}], b"two signatures", jkey, algorithms=A)
+            v = rjws.verify(tok, lambda m, i: key.public() if key.kty != "oct" else key, None)
+            if not v.ok:
+                out.append(("shared-key-object:general-json:peer-rejects", "two signatures (%s, %s) by one key object: %s" % (a1, a2, v.reason)))
+        except Exception as e:
+            out.append(("shared-key-object:general-json:failed", "%s: %s" % (type(e).__name__, str(e)[:80])))
+    return out
+
+
+def empty_protected_problems(rng, res=None, tr=None) -> list:
+    """a peer's JSON JWS whose protected header is the empty object (any spelling), alg in the unprotected header: the signing
+    input is BASE64URL('{}') || '.' || payload, not '.' || payload"""
+    from joserfc import jws
+    out = []
+    key = K.make_oct(rng.sub("k"), 32)
+    jkey = K.to_jose_fast(key, True)
+    ec = K.make_ec(rng.sub("e"), "P-256")
+    for text in (b"{}", b"{ }", b" {}\n"):
+        for alg, k, jk in (("HS256", key, jkey), ("ES256", ec, K.to_jose_fast(ec.public(), False))):
+            for form in ("flat", "general"):
+                if form == "flat":
+                    tok = rjws.make_flattened(text, {"alg": alg}, b"payload", alg, k)
+                else:
+                    tok = rjws.make_general(b"payload", [(text, {"alg": alg}, alg, k)])
+                if res is not None:
+                    res.case("empty-protected", text, alg, form)
+                    res.fired("peer-token-with-empty-protected-header")
+                try:
+                    obj = jws.deserialize_json(tok, jk, algorithms=list(rjws.ALL_ALGS))
+                    if obj.payload != b"payload":
+                        out.append(("ref->jose:empty-protected:payload-differs", repr(obj.payload)))
+                except Exception as e:
+                    out.append(("ref->jose:empty-protected:rejected", "peer %s JSON JWS with protected header %r and alg in the unprotected header rejected: %s: %s" % (
+                        form, text, type(e).__name__, str(e)[:80])))
+    return out
 
 
 def _jose_to_ref(rng, index, ev, alg, form, res, tr):
@@ -288,6 +361,10 @@ def replay(repro: dict):
             if t["name"] == repro["name"]:
                 _vector(t, key, res, tr, 0)
         return out
+    if repro["dir"] == "shared-key-object":
+        return [(v[0], v[1]) for v in shared_key_object_problems(Rng(repro["seed"]).sub("shared-key"))]
+    if repro["dir"] == "empty-protected":
+        return [(v[0], v[1]) for v in empty_protected_problems(Rng(repro["seed"]).sub("empty-protected"))]
     if repro["dir"] == "ref->jose":
         from .c01 import _conf_from_json
         conf = _conf_from_json(repro["conf"])
